@@ -179,6 +179,45 @@ def legal (excl : Bool) (cpu : Nat) (s : Src) : Bool :=
 /-- the instruction a Z80-style statement denotes -/
 def meaning (excl : Bool) (s : Src) : Option AslModel.Spec.I8080.Instr := (intel excl s).map AslModel.Spec.I8080.meaning
 
+/-- the names `C` and `M` read as conditions ("carry", "minus") -/
+def nameCM : Opd → Bool
+  | .cond c => decide (c = 3) || decide (c = 7)
+  | _ => false
+
+/-- the names `C` and `M` read as 8-bit registers -/
+def regCM : Opd → Bool
+  | .r8 r => decide (r = 1) || decide (r = 6)
+  | _ => false
+
+def isAbs : Opd → Bool
+  | .abs _ => true
+  | _ => false
+
+def isImm : Opd → Bool
+  | .imm _ => true
+  | _ => false
+
+/-- **Scope of this SPEC** (hypothesis of the theorems `C14_8080z_sound` / `C14_8080z_range`): the statement is written with
+the spellings the manuals give.
+* An operand *value* names its text uniquely: the names `C` and `M` are conditions (`cond 3`, `cond 7`) exactly where a
+  condition stands - first operand of a two-operand `JP` / `CALL`, operand of `RET` - and registers (`r8 1`, `r8 6`) everywhere
+  else (`LD A,C` is `[r8 7, r8 1]`, never `[r8 7, cond 3]`; `JP C,nn` is `[cond 3, imm nn]`, never `[r8 1, imm nn]`).
+* Spellings that are neither Zilog's nor Intel's, which code85.c happens to take and about which the manuals say nothing, are
+  outside: `SUB A,M` in the non-exclusive mode (Zilog: `SUB A,(HL)`, Intel: `SUB M`), a port without parentheses in the
+  two-operand `IN A,n` / `OUT n,A` (Zilog: `IN A,(n)`), a port in parentheses in the one-operand `IN (n)` / `OUT (n)` of the
+  non-exclusive mode (Intel: `IN n`; the exclusive mode refuses the one-operand form), a restart address in parentheses `RST (n)`.
+Every clause is shown to be needed (`C14_8080z_hypothesis_needed` in `Props/C14_8080Z.lean`). -/
+def canonical (excl : Bool) (s : Src) : Bool :=
+  match s.mn, s.args with
+  | JP, [o1, o2] | CALL, [o1, o2] => !regCM o1 && !nameCM o2
+  | RET, [o] => !regCM o
+  | SUB, [o1, o2] => !nameCM o1 && !nameCM o2 && (excl || o2 != .r8 6)
+  | IN, [o1, o2] => !nameCM o1 && !nameCM o2 && !isImm o2
+  | OUT, [o1, o2] => !nameCM o1 && !nameCM o2 && !isImm o1
+  | IN, [o] | OUT, [o] => !nameCM o && (excl || !isAbs o)
+  | RST, [o] => !nameCM o && !isAbs o
+  | _, args => args.all (fun o => !nameCM o)
+
 /-- operand shapes of a mnemonic, for the generator: `fixed`, `ld`, `stack`, `ex`, `acc2` (ADD/ADC: destination required in
 exclusive mode), `acc` (destination `A,` optional), `incdec`, `jp`, `call`, `ret`, `rst`, `io` -/
 def formName : Mn → String
